@@ -80,7 +80,7 @@ func Process(stmts []*proto.Statement, rwrand, rwtime bool) (retErr error) {
 				complete = false
 				break
 			}
-			parts = append(parts, rwStmt.String())
+			parts = append(parts, render(rwStmt))
 			rewritten = rewritten || rw
 			ret = ret || r
 		}
@@ -95,6 +95,23 @@ func Process(stmts []*proto.Statement, rwrand, rwtime bool) (retErr error) {
 		stmts[i].ForceQuery = ret
 	}
 	return nil
+}
+
+// render returns the SQL text of stmt. The String methods of the UPDATE and
+// DELETE statements leave out the RETURNING clause, so it is added here.
+func render(stmt sql.Statement) string {
+	s := stmt.String()
+	var rc *sql.ReturningClause
+	switch n := stmt.(type) {
+	case *sql.UpdateStatement:
+		rc = n.ReturningClause
+	case *sql.DeleteStatement:
+		rc = n.ReturningClause
+	}
+	if rc != nil && !strings.HasSuffix(s, rc.String()) {
+		s += " " + rc.String()
+	}
+	return s
 }
 
 // ContainsTime returns true if the statement contains a time-related function.
